@@ -347,7 +347,7 @@ NavStep(n, L, Dm, maxh, t, st) ==                        \* one iteration of `wh
      ELSE IF maxh >= 0 /\ st.plb > maxh THEN NavFail(st, "maxhops")
      ELSE [cur |-> next, last |-> st.cur, path |-> Append(st.path, next),
            plb |-> st.plb + 1, plw |-> st.plw + L[st.cur][next],
-           pld |-> st.pld + Dm[st.cur][next], status |-> "run"]
+           pld |-> Plus(st.pld, Dm[st.cur][next]), status |-> "run"]     \* (saturating: a nodal distance may be inf)
 RECURSIVE NavRun(_, _, _, _, _, _)
 NavRun(n, L, Dm, maxh, t, st) ==
   IF st.status # "run" THEN st ELSE NavRun(n, L, Dm, maxh, t, NavStep(n, L, Dm, maxh, t, st))
